@@ -127,6 +127,8 @@ Lemma same_arenas_name_to_def : forall S m, same_arenas S (set_name_to_def S m).
 Proof. intros S m k. destruct k; reflexivity. Qed.
 Lemma same_arenas_name_to_multiclass : forall S m, same_arenas S (set_name_to_multiclass S m).
 Proof. intros S m k. destruct k; reflexivity. Qed.
+Lemma same_arenas_name_to_defset : forall S m, same_arenas S (set_name_to_defset S m).
+Proof. intros S m k. destruct k; reflexivity. Qed.
 Lemma same_arenas_file_syms : forall S m, same_arenas S (set_file_syms S m).
 Proof. intros S m k. destruct k; reflexivity. Qed.
 Lemma same_arenas_pos : forall S m, same_arenas S (set_pos S m).
